@@ -3,11 +3,13 @@
 ** ledger / total-order / equality+hash / failed-operation oracles are added on the same
 ** state graph).
 **
-** Parameters: keys=int|str|probe  vals=int|probe|blob  nkeys=N (<=16)  nvals=1|2
+** Parameters: keys=int|wideint|str|probe  vals=int|probe|blob  nkeys=N (<=16)  nvals=1|2
 **             (blob = plain 20-byte struct without any class instance; every byte of every
 **              binding is compared with the reference after every operation; key and value
 **              types of different sizes: int->probe 8/24, probe->int 24/8, str->probe 8/24,
 **              int->blob 8/20, probe->blob 24/20)
+**             (wideint = Int keys 0, 1, -1, 2^31, -2^31, 2^32, -2^32, 2^31-1, 2^32+1, INT64_MAX,
+**              INT64_MIN, 2^62: pairs 2^31 and 2^32 apart; the reference order is the int64 order)
 **             prop=C03|C05|C09|C10|C12
 **             two=0|1   (second tree B: copy/assign/swap/del between A and B)
 **             mode=bfs|ladder|pairs   depth=N (0 = fixpoint)  memo=0|1
@@ -65,6 +67,10 @@ static char xname[16][96];
 static var wrongkey, wrongval;
 static char skeys[MAXK][8];
 static int in_ladder;
+static int wide;                /* keys=wideint */
+static int64_t kval[MAXK];      /* the number key #i is made from (its place in the key order) */
+static const int64_t widekeys[12] = { 0, 1, -1, INT64_C(2147483648), -INT64_C(2147483648), INT64_C(4294967296), -INT64_C(4294967296),
+  INT64_C(2147483647), INT64_C(4294967297), INT64_MAX, INT64_MIN, INT64_C(4611686018427387904) };
 
 /* reference model: association lists for A and B */
 #define BLOBSZ 20
@@ -90,7 +96,7 @@ static int model_equal(struct model* a, struct model* b) {
   return 1;
 }
 
-static const char* kname(void) { return kkind == 0 ? "int" : kkind == 1 ? "str" : "probe"; }
+static const char* kname(void) { return kkind == 0 ? (wide ? "wideint" : "int") : kkind == 1 ? "str" : "probe"; }
 static const char* vname(void) { return vkind == 2 ? "probe" : vkind == 3 ? "blob" : "int"; }
 
 /* name the kind of operation in progress: it is the middle part of every site label, and
@@ -98,7 +104,7 @@ static const char* vname(void) { return vkind == 2 ? "probe" : vkind == 3 ? "blo
 static char phasebuf[96];
 static void kind(const char* k) {
   lastkind = k;
-  snprintf(phasebuf, sizeof phasebuf, "tree/%s-%s/%s", kkind == 0 ? "int" : kkind == 1 ? "str" : "probe", vkind == 2 ? "probe" : vkind == 3 ? "blob" : "int", k);
+  snprintf(phasebuf, sizeof phasebuf, "tree/%s-%s/%s", kkind == 0 ? (wide ? "wideint" : "int") : kkind == 1 ? "str" : "probe", vkind == 2 ? "probe" : vkind == 3 ? "blob" : "int", k);
   vf.phase = phasebuf;
 }
 
@@ -122,10 +128,17 @@ static int64_t keyrank(var k) {
 
 static int key_index(var k) {
   int64_t r = keyrank(k);
-  if (r < 0 || r >= K) return -1;
-  if (kkind == 1 && strcmp(c_str(k), skeys[r]) != 0) return -1;
-  return (int)r;
+  if (kkind == 1) {
+    if (r < 0 || r >= K) return -1;
+    if (strcmp(c_str(k), skeys[r]) != 0) return -1;
+    return (int)r;
+  }
+  for (int i = 0; i < K; i++) if (kval[i] == r) return i;
+  return -1;
 }
+
+/* place of key #i in the reference order, computed on int64 (String keys "k00".. sort like their index) */
+static int64_t kord(int i) { return kkind == 1 ? i : kval[i]; }
 
 /* the 20 bytes a blob value for (key k, value index v) consists of: no two alike, no zero byte */
 static void blob_fill(unsigned char* b, int k, int v) {
@@ -155,7 +168,7 @@ static void del_tree(var t, int managed) { if (managed) del(t); else del_raw(t);
 
 static void make_carriers(void) {
   for (int i = 0; i < K; i++) {
-    keyobj[i] = kkind == 0 ? (var)new_raw(Int, $I(i)) : kkind == 1 ? (var)new_raw(String, $S(skeys[i])) : (var)new_raw(Probe, $I(i));
+    keyobj[i] = kkind == 0 ? (var)new_raw(Int, $I(kval[i])) : kkind == 1 ? (var)new_raw(String, $S(skeys[i])) : (var)new_raw(Probe, $I(kval[i]));
   }
   for (int v = 0; v < 2; v++) valobj[v] = vkind == 2 ? (var)new_raw(Probe, $I(v)) : (var)new_raw(Int, $I(v));
   if (vkind == 3 && blobobj[0][0] == NULL) {
@@ -163,7 +176,7 @@ static void make_carriers(void) {
   }
   if (cross_op || table_op) {
     for (int i = 0; i < K; i++) {
-      fkey[0][i] = new_raw(Int, $I(i)); fkey[1][i] = new_raw(String, $S(skeys[i])); fkey[2][i] = new_raw(Probe, $I(i));
+      fkey[0][i] = new_raw(Int, $I(kval[i])); fkey[1][i] = new_raw(String, $S(skeys[i])); fkey[2][i] = new_raw(Probe, $I(kval[i]));
       for (int v = 0; v < 2; v++) {
         fval[0][i][v] = new_raw(Int, $I(v)); fval[2][i][v] = new_raw(Probe, $I(v));
         fval[3][i][v] = new_raw(Blob); blob_fill(((struct Blob*)fval[3][i][v])->b, i, v);
@@ -291,7 +304,7 @@ static int audit_node(struct aud* a, var node, var parent, int depth) {
   if (header(Tree_Key(m, node))->type != m->ktype || header(Tree_Val(m, node))->type != m->vtype)
     return aud_fail(a, "audit-header", "a node's key/value header does not carry the tree's key/value type");
   int64_t rk = keyrank(Tree_Key(m, node));
-  if (!in_ladder && (rk < 0 || rk >= K)) return aud_fail(a, "audit-foreign-key", "a node holds a key outside the universe");
+  if (!in_ladder && key_index(Tree_Key(m, node)) < 0) return aud_fail(a, "audit-foreign-key", "a node holds a key outside the universe");
   if (a->have_prev) {
     int d = rk < a->prev ? -1 : rk > a->prev ? 1 : 0;
     if (d == 0) return aud_fail(a, "audit-duplicate-key", "key %" PRId64 " is stored in two nodes", rk);
@@ -374,7 +387,7 @@ static int check_map(var t, struct model* m, const char* who) {
     if (ki < 0) { vf_violation(L("iter-foreign"), NULL, "%s: iteration yielded a key outside the universe", who); return 1; }
     if (!m->present[ki]) { vf_violation(L("iter-ghost"), NULL, "%s: iteration yielded absent key#%d", who, ki); return 1; }
     if (nf > 0) {
-      int d = ki < fwd[nf - 1] ? -1 : ki > fwd[nf - 1] ? 1 : 0;
+      int d = kord(ki) < kord(fwd[nf - 1]) ? -1 : kord(ki) > kord(fwd[nf - 1]) ? 1 : 0;
       if (d == 0) { vf_violation(L("iter-duplicate"), NULL, "%s: iteration yielded key#%d twice in a row", who, ki); return 1; }
       if (dir == 0) dir = d;
       else if (d != dir) { vf_violation(L("iter-not-monotone"), NULL, "%s: forward iteration is not strictly monotone: key#%d after key#%d", who, ki, fwd[nf - 1]); return 1; }
@@ -916,7 +929,7 @@ static int ref_cmp(struct ptree* a, struct ptree* b, int* where, int* inval) {
     if (i == a->n && i == b->n) return 0;
     if (i == a->n) return -1;
     if (i == b->n) return 1;
-    if (a->seq[i][0] != b->seq[i][0]) return a->seq[i][0] < b->seq[i][0] ? -1 : 1;
+    if (a->seq[i][0] != b->seq[i][0]) return kord(a->seq[i][0]) < kord(b->seq[i][0]) ? -1 : 1;
     if (a->seq[i][1] != b->seq[i][1]) { *inval = 1; return a->seq[i][1] < b->seq[i][1] ? -1 : 1; }
   }
 }
@@ -1213,6 +1226,9 @@ int main(int argc, char** argv) {
   K = (int)vf_param_i("nkeys", 6);
   if (K > MAXK) K = MAXK;
   if (K < 1) K = 1;
+  wide = strcmp(ks, "wideint") == 0 && !vf_param_is("mode", "ladder", "bfs");
+  if (wide && K > 12) K = 12;
+  for (int i = 0; i < MAXK; i++) kval[i] = (wide && i < 12) ? widekeys[i] : i;
   NV = (int)vf_param_i("nvals", 1);
   if (NV < 1) NV = 1; if (NV > 2) NV = 2;
   two = (int)vf_param_i("two", 0);
@@ -1258,7 +1274,8 @@ int main(int argc, char** argv) {
     vf_bfs_run(&d);
     if (pairs_mode) pairs_phase();
   }
-  vf_extra("key_universe", "\"%s keys 0..%d, %d value(s)\"", kname(), K - 1, NV);
+  if (wide) vf_extra("key_universe", "\"Int keys #0..#%d = 0, 1, -1, 2^31, -2^31, 2^32, -2^32, 2^31-1, 2^32+1, INT64_MAX, INT64_MIN, 2^62 (first %d), %d value(s)\"", K - 1, K, NV);
+  else vf_extra("key_universe", "\"%s keys 0..%d, %d value(s)\"", kname(), K - 1, NV);
   vf_finish();
   return 0;
 }
